@@ -926,6 +926,12 @@ func exportedServicesForPeerTxn(
 			return fmt.Errorf("failed gateway lookup for %q: %w", sn.Name, err)
 		}
 		ws.Add(svcGateways.WatchCh())
+		// The gateway links decide the result as well, so their index has
+		// to be part of the reported one: a link can appear or disappear
+		// without any of the other tables read here being written.
+		if idx := maxIndexTxn(tx, tableGatewayServices); idx > maxIdx {
+			maxIdx = idx
+		}
 		for svc := svcGateways.Next(); svc != nil; svc = svcGateways.Next() {
 			gs, ok := svc.(*structs.GatewayService)
 			if !ok {
